@@ -687,6 +687,15 @@ fn run_data(bytes: Arc<Vec<u8>>, fmt: InputFormat, o: &Opts) -> Report {
                 nickel_lang_core::verif_hooks::set_fuel(u64::MAX);
                 Ok(format!("ok:{}", export_all(prog, rep, &v, "data_import")))
             });
+            // ... and merged with a Nickel record, which is what imported data is for
+            let prog_text = format!("(import {}) & {{c10_extra_field = 1}}", escape_nickel_string(&path.to_string_lossy()));
+            let b = Arc::new(prog_text.into_bytes());
+            prog_stage(&mut rep, o, "data_import_merge", &b, InputFormat::Nickel, move |prog, rep| {
+                nickel_lang_core::verif_hooks::set_fuel(fuel);
+                let v = prog.eval_full_for_export()?;
+                nickel_lang_core::verif_hooks::set_fuel(u64::MAX);
+                Ok(format!("ok:{}", export_all(prog, rep, &v, "data_import_merge")))
+            });
             let _ = std::fs::remove_file(&path);
         }
     }
